@@ -55,6 +55,8 @@ RULES = {
           "`from_str(\"lit\") == Ok(V)` is generated per arm",
     "E8": "monomorphisation: a generic parameter (`mono T=i128`) or `Self` (`selftype i128`) is replaced textually by the "
           "concrete type named in the directive; the generic bound list is dropped",
+    "E17": "deadtail: the part of a body after the ISO-calendar early return (calls into icu_calendar) is replaced by "
+           "`unreached()`; Verus proves it unreachable under `requires <calendar is ISO>`, so only the ISO branch is claimed",
     "E16": "destructuring assignment `(a, b) = e;` -> `let t = e; a = t.0; b = t.1;` (Rust's own desugaring; Verus lacks it)",
     "E13": "`x op= e` on signed integers for op in {/,%} -> `x = x op e`",
 }
@@ -460,7 +462,7 @@ def rewrite_derive(attr_text):
 # directive parsing
 
 SECTION_KW = ("ret", "requires", "ensures", "decreases", "recommends", "entry", "loop", "before", "after",
-              "subst", "sigsubst", "attr", "name", "opens", "noprove", "unwind", "mono", "selftype", "ord", "header", "nostructural")
+              "subst", "sigsubst", "attr", "name", "opens", "noprove", "unwind", "mono", "selftype", "ord", "header", "nostructural", "deadtail")
 
 
 class FnDirective:
@@ -534,7 +536,7 @@ def _sec_line(d, t):
             mm = re.match(r'"((?:[^"\\]|\\.)*)"\s*=>\s*"((?:[^"\\]|\\.)*)"\s*$', rest)
             if not mm:
                 raise ExtractError("bad subst: " + t)
-            arg, text = mm.group(1).replace('\\"', '"'), mm.group(2).replace('\\"', '"')
+            arg, text = mm.group(1).replace('\\"', '"').replace("\\n", "\n"), mm.group(2).replace('\\"', '"').replace("\\n", "\n")
         d.sections.append([kw, arg, text])
     else:
         if not d.sections:
@@ -663,6 +665,16 @@ def apply_mono(text, d, em, is_sig=False):
 def splice_body(body, d, em, target):
     """body: text from `{` to matching `}` inclusive."""
     body = apply_mono(body, d, em)
+    for (_, anchor) in d.get("deadtail"):
+        # E17: drop the tail of the body starting at the anchored line; it is replaced by `unreached()`, which Verus
+        # must prove unreachable under the function's requires (used for the non-ISO branches that call icu_calendar)
+        anchor = anchor.strip().strip('"')
+        ls = body.split("\n")
+        hits = [k for k, ln in enumerate(ls) if anchor in ln]
+        if len(hits) != 1:
+            raise ExtractError("deadtail anchor %r matches %d lines in %s" % (anchor, len(hits), target))
+        body = "\n".join(ls[:hits[0]]) + "\n        vstd::pervasive::unreached()\n}"
+        em.rules.add("E17")
     for (a, b) in d.get("subst"):
         if a not in body:
             raise ExtractError("subst anchor lost in %s: %r" % (target, a))
@@ -837,6 +849,7 @@ def emit_item(em, d):
         # E2: private named fields -> pub (visibility only)
         lines = [re.sub(r"^(\s+)([a-z_][A-Za-z0-9_]*\s*:)", r"\1pub \2", ln) if not ln.lstrip().startswith(("pub", "//", "#")) else ln for ln in lines]
     ord_text = None
+    have = None
     if it.kind in ("struct", "enum"):
         keep, have = rewrite_derive(attr_text)
         if d.get("nostructural") and keep:
@@ -857,6 +870,13 @@ def emit_item(em, d):
         em.items.append({"item": d.target})
     for ln in lines:
         em.emit(ln, origin)
+    if it.kind == "enum" and "PartialEq" in (have or []) and "Eq" not in (have or []):
+        body_m = mask_keep_code("\n".join(lines))
+        inner = body_m[body_m.index("{") + 1:body_m.rindex("}")]
+        if all(re.match(r"^[A-Za-z_][A-Za-z0-9_]*(\s*=\s*-?\d+)?$", p_.strip()) for p_ in split_top_commas(inner) if p_.strip()):
+            # E1: derive(PartialEq) on a fieldless enum is variant equality
+            em.emit("impl vstd::std_specs::cmp::PartialEqSpecImpl for %s {\n    open spec fn obeys_eq_spec() -> bool { true }\n"
+                    "    open spec fn eq_spec(&self, other: &Self) -> bool { *self == *other }\n}" % it.name, origin + " (E1: derived PartialEq of a fieldless enum)")
     if ord_text:
         em.emit(ord_text, origin + " (E6 generated from the declaration order)")
 
